@@ -1,6 +1,8 @@
 """GenSplit.v: `is_split_required` of sql/pq/anchor.rs translated arm by arm into a Coq function
 (Tie A).  Supported body forms: contains_any(following, [..]) ; if following.contains("X") {..} else {..} ;
-!following.is_empty() ; true ; false.  Anything else = extraction failure (fail closed)."""
+!following.is_empty() ; true ; false.  Anything else = extraction failure (fail closed).
+Items and statements guarded by `#[cfg(prqlc_verif)]` (verification hooks, never compiled in normal builds) are removed from
+the file before anything is recognised (`strip_cfg_verif`); every other way of mentioning that cfg fails closed."""
 import re
 
 from ..common import gen_write
